@@ -29,6 +29,10 @@ from . import C14 as base
 from . import session
 
 LEVEL = "other"
+IMPORTS = [
+    ("C07", None, "the generated parsers read the token stream; `no tokens` vs `one empty token` must survive the name/argument split"),
+    ("C08", ("C08.classify",), "options, flags and values are recognised through ArgsIter's classification"),
+]
 
 
 def fmt_fields(variant, fields, order):
